@@ -180,6 +180,12 @@ func (v array_[V]) SetValues(index int, values Sequential[V]) {
 	// The full index range must be in bounds.
 	var size = values.GetSize()
 	var first = v.toZeroBased(index)
+	if index < 0 && size > -index {
+		panic(fmt.Sprintf(
+			"The specified values do not fit into the array starting at index %v: %v",
+			index,
+			size))
+	}
 	var last = v.toZeroBased(index+size-1) + 1
 	copy(v[first:last], values.AsArray())
 }
